@@ -204,10 +204,11 @@ impl Probe for GraphProbe {
 pub fn scenarios(thorough: bool) -> Vec<Scenario> {
     let mut v = vec![];
     v.push(pair_scenario("pair-arrays", if thorough { &[1, 2, 3, 6, 9] } else { &[2, 3, 9] }, if thorough { 7 } else { 6 },
-        &[Op::Resolve(0, 0, 0), Op::Resolve(1, 0, 1), Op::Commit(0, 2), Op::Meld(0, 1), Op::Travel(0, 0), Op::Travel(1, 1), Op::Reload(0)]));
+        &[Op::Resolve(0, 0, 0), Op::Resolve(1, 0, 1), Op::Commit(0, 2), Op::Commit(1, 3), Op::Meld(0, 1), Op::Travel(0, 0), Op::Travel(1, 1), Op::Reload(0), Op::Reopen(1)]));
     v.push(pair_conflict_scenario("pair-conflict", 2, 3, if thorough { &[1, 8, 4] } else { &[1, 8] }, if thorough { 5 } else { 4 },
         &[Op::Resolve(1, 0, 0), Op::Resolve(1, 0, 1), Op::Commit(1, 1), Op::Travel(1, 0), Op::Travel(1, 2), Op::Reload(1)]));
     v.push(trio_scenario("trio", if thorough { 7 } else { 6 }));
+    v.push(same_edit_scenario("pair-same-edit", if thorough { 4 } else { 3 }, &[Op::Travel(0, 3), Op::Commit(0, 3)]));
     v.push(many_commits_scenario("pair-many-commits", if thorough { 4 } else { 3 }, &[Op::Travel(0, 3), Op::Travel(0, 9), Op::Travel(1, 2), Op::Reload(0)]));
     for sc in v.iter_mut() {
         sc.key_opts.heads = true;
